@@ -4,12 +4,19 @@
 
   * a generic fact: a fold whose step function commutes and is idempotent depends only on the
     set of members of the list (`foldl_eq_of_mem`);
-  * `removeOne` and `startOne` commute and are idempotent (no invariant needed);
+  * `removeOne` and `startOne` commute and are idempotent (no invariant needed), hence
+    `chkWorkingOrd_congr`, `chkRemoveOrd_congr`;
   * `check_state(FINISHED)`: the final task states are the least set closed under the finish
-    rule (`finishClosure_sub`, both directions), and under `AllocInv` the whole final state is a
-    function `finForm` of the input state and the final task states;
-  * `pertOrd`: the PERT update with the wave iteration order as a parameter;
-  * `updateOrd`, `stepBodyOrd`, `loopOrd`, `simulateOrd`: the simulation with explicit orders.
+    rule (`finishClosure_sub`, used in both directions: `chkFinishedOrd_tr`), and under
+    `AllocInv` the whole final state is a function `finForm` of the input state and the final
+    task states (`chkFinishedOrd_form`), hence `chkFinishedOrd_congr`;
+  * `pertOrd`: the PERT update with the iteration order of every task set as a parameter
+    (`pertOrd_canon`: the canonical order gives `pert`); on finish-to-start networks the wave
+    loop is correct for every order (`pertOrd_AEqs`, the proof of Lemmas/Pert.lean redone for
+    `gLoopOrd`), it writes nothing outside the model (`pertOrd_out`), hence `pertOrd_eq_pert`;
+  * `updateOrd`, `stepBodyOrd`, `initProjectOrd`, `loopOrd`, `simulateOrd`: the simulation with
+    explicit orders (`Orders`), equal to the model's (`loopOrd_eq`; `loopOrd_eq_fs` with the
+    PERT order free on finish-to-start networks).
 -/
 import PDesy.Lemmas.Alloc
 import PDesy.Lemmas.Perform
